@@ -3,7 +3,7 @@ import collections
 
 import numpy as np
 
-from .. import common as C, gen, scen, bkd
+from .. import common as C, gen, scen, bkd, translators
 from ..runner import Check
 from . import bkgen, drvcommon as D
 
@@ -85,7 +85,7 @@ def run_one(spec):
 
 
 def run():
-    chk = Check("C08")
+    chk = Check("C08", props_modules=["GFO.Props.C08", "GFO.Gen.CoreGenCheck"], gen_steps=(translators.gen_core,))
     chk.build_and_audit()
     r = C.rng("C08")
     quick = C.tier() != "thorough"
